@@ -282,4 +282,94 @@ example : Mir.Gen.hierarchy._gauc [[2, 1, 0], [1, 2, 0], [0, 0, 2]] [[1, 1, 1], 
     ∧ Mir.Gen.hierarchy._gauc [[1, 1], [1, 1]] [[1, 1], [1, 1]] false (some 1) = .ok 0 := by
   refine ⟨by decide +kernel, by decide +kernel, by decide +kernel⟩
 
+/-! ### `_round`, `_hierarchy_bounds`, `_lca` -/
+
+/-- `_round` as translated never raises and, for `frame_size > 0`, is `frame_size · ⌊t / frame_size⌋`: the time stamp
+    rounded down to the frame grid, whose frame index is the model's `frameOf` -/
+theorem _round_eq_model (t fs : Rat) (h : 0 < fs) :
+    ∃ r, Mir.Gen.hierarchy._round t fs = .ok r ∧ r = fs * ((frameOf t fs : Int) : Rat) ∧ pyInt (r / fs) = frameOf t fs := by
+  refine ⟨t - npMod t fs, rfl, ?_, pyInt_round_div t fs h⟩
+  unfold npMod frameOf; ring
+
+/-- **`_hierarchy_bounds` as translated = the hand model** (`bounds`) for every hierarchy (no levels / only empty levels:
+    the `ValueError` of `min([])`) -/
+theorem _hierarchy_bounds_eq_model (h : Hier) : Mir.Gen.hierarchy._hierarchy_bounds h = bounds h := by
+  unfold Mir.Gen.hierarchy._hierarchy_bounds bounds chain2 pyMin pyMax
+  cases hb : boundaries h with
+  | nil => rfl
+  | cons x t => simp only [List.min?_cons', List.max?_cons', ok_bind, pure_eq_ok]
+
+/-- the translated inner loop of `_lca` writes one diagonal block per segment -/
+theorem _lca_loop2_eq (level n : Nat) : ∀ (frames : List (Int × Int)) (m : Mat), m.length = n →
+    Mir.Gen.hierarchy._lca_loop2 level frames m
+      = .ok (frames.foldl (fun m f => Hierarchy.setBlock m (normIdx f.1 n) (normIdx f.2 n) (normIdx f.1 n) (normIdx f.2 n) level) m) := by
+  intro frames
+  induction frames with
+  | nil => intro m _; rfl
+  | cons f t ih =>
+    intro m hm
+    unfold Mir.Gen.hierarchy._lca_loop2
+    simp only [PyH.setBlock, hm]
+    rw [ih _ (by rw [length_setBlock, hm])]
+    rfl
+
+/-- the translated outer loop of `_lca` = the model's fold of `lcaLevel` over the levels numbered from 1 -/
+theorem _lca_loop1_eq (fs : Rat) (hfs : 0 < fs) (n : Nat) : ∀ (xs : List (Ivals × Nat)) (m : Mat), m.length = n →
+    Mir.Gen.hierarchy._lca_loop1 fs xs m = .ok (xs.foldl (fun m x => lcaLevel fs n m x.2 x.1) m) := by
+  intro xs
+  induction xs with
+  | nil => intro m _; rfl
+  | cons x t ih =>
+    obtain ⟨ivs, level⟩ := x
+    intro m hm
+    unfold Mir.Gen.hierarchy._lca_loop1
+    simp only [Mir.Gen.hierarchy._round_nd, pure_eq_ok, ok_bind, frames_of_round ivs fs hfs, _lca_loop2_eq level n _ m hm,
+      List.foldl_map]
+    have hl : (List.foldl (fun m (iv : Rat × Rat) => Hierarchy.setBlock m (normIdx (frameOf iv.1 fs) n) (normIdx (frameOf iv.2 fs) n)
+        (normIdx (frameOf iv.1 fs) n) (normIdx (frameOf iv.2 fs) n) level) m ivs) = lcaLevel fs n m level ivs := rfl
+    rw [hl, ih _ (by rw [length_lcaLevel, hm])]
+    rfl
+
+/-- **`_lca` as translated = the hand model** (`lca`) for every hierarchy and every `frame_size > 0` (the declared
+    precondition; the public functions reject the rest): the number of frames is never negative, so `lil_matrix` never
+    raises; an empty hierarchy is the `ValueError` of `min([])` -/
+theorem _lca_eq_model (h : Hier) (fs : Rat) (hfs : 0 < fs) : Mir.Gen.hierarchy._lca h fs = lca h fs := by
+  unfold Mir.Gen.hierarchy._lca lca numFrames
+  rw [_hierarchy_bounds_eq_model]
+  cases hb : bounds h with
+  | error e => rfl
+  | ok b =>
+    obtain ⟨lo, hi⟩ := b
+    have hle : lo ≤ hi := by
+      unfold bounds at hb
+      cases hmin : (boundaries h).min? with
+      | none => rw [hmin] at hb; cases hb
+      | some a =>
+        cases hmax : (boundaries h).max? with
+        | none => rw [hmin, hmax] at hb; cases hb
+        | some b =>
+          rw [hmin, hmax] at hb
+          injection hb with hb; injection hb with h1 h2
+          subst h1; subst h2
+          exact min?_le_max? hmin hmax
+    have hd : 0 ≤ frameOf hi fs - frameOf lo fs := by
+      have : frameOf lo fs ≤ frameOf hi fs := by
+        unfold frameOf
+        exact Rat.floor_monotone (div_le_div_of_nonneg_right hle (le_of_lt hfs))
+      omega
+    simp only [ok_bind, Mir.Gen.hierarchy._round, pure_eq_ok, round_sub_div hi lo fs hfs, lilZeros,
+      if_neg (not_lt.2 hd)]
+    rw [_lca_loop1_eq fs hfs (frameOf hi fs - frameOf lo fs).toNat _ _ (length_zeros _)]
+
+/-- the C17 statement on the translated `_lca`: every entry is the deepest level at which the two frames share a segment -/
+theorem gen_lca_spec (h : Hier) (fs : Rat) (hfs : 0 < fs) (m : Mat) (n : Nat)
+    (hm : Mir.Gen.hierarchy._lca h fs = .ok m) (hn : numFrames h fs = .ok n) (i j : Nat) (hi : i < n) (hj : j < n) :
+    entry m i j = some (lcaSpec h fs n i j) :=
+  Mir.C17.lca_spec h fs m n (by rw [← _lca_eq_model h fs hfs]; exact hm) hn i j hi hj
+
+example : Mir.Gen.hierarchy._lca [[(0, 4)], [(0, 2), (2, 4)]] 1 = .ok [[2, 2, 1, 1], [2, 2, 1, 1], [1, 1, 2, 2], [1, 1, 2, 2]]
+    ∧ Mir.Gen.hierarchy._lca [] 1 = .error .valueError
+    ∧ Mir.Gen.hierarchy._hierarchy_bounds [[(0, 4)], [(1/2, 2), (2, 9/2)]] = .ok (0, 9/2) := by
+  refine ⟨by decide +kernel, by decide +kernel, by decide +kernel⟩
+
 end Mir.C17.Gen
